@@ -11,7 +11,7 @@ Definition sk_AfricanVultureOptimization : skeleton := {|
   sk_raw_sites := 0; sk_core_writes := 0; sk_objective_calls := 0;
   sk_reflection := 0; sk_init_agent_ok := true; sk_greedy := GMin;
   sk_config_writes := []; sk_task_writes := [];
-  sk_stale := []; sk_entropy := [];
+  sk_stale := ["_previous_error"]; sk_entropy := [];
   sk_reads_fitness := false; sk_reads_direction := false;
   sk_ctor_deref := []; sk_set_config_canonical := true;
   sk_fingerprint := "01884b41effbe190" |}.
@@ -23,7 +23,7 @@ Definition sk_AntColonyOptimization : skeleton := {|
   sk_raw_sites := 0; sk_core_writes := 0; sk_objective_calls := 0;
   sk_reflection := 0; sk_init_agent_ok := true; sk_greedy := GMin;
   sk_config_writes := []; sk_task_writes := [];
-  sk_stale := []; sk_entropy := [];
+  sk_stale := ["_previous_error"]; sk_entropy := [];
   sk_reads_fitness := false; sk_reads_direction := false;
   sk_ctor_deref := []; sk_set_config_canonical := true;
   sk_fingerprint := "eaae2ee4e3862700" |}.
@@ -35,7 +35,7 @@ Definition sk_AntLionOptimization : skeleton := {|
   sk_raw_sites := 0; sk_core_writes := 0; sk_objective_calls := 0;
   sk_reflection := 0; sk_init_agent_ok := true; sk_greedy := GMin;
   sk_config_writes := []; sk_task_writes := [];
-  sk_stale := []; sk_entropy := [];
+  sk_stale := ["_previous_error"]; sk_entropy := [];
   sk_reads_fitness := true; sk_reads_direction := false;
   sk_ctor_deref := []; sk_set_config_canonical := true;
   sk_fingerprint := "4b9c275764ae2404" |}.
@@ -47,7 +47,7 @@ Definition sk_AquilaOptimization : skeleton := {|
   sk_raw_sites := 0; sk_core_writes := 0; sk_objective_calls := 0;
   sk_reflection := 0; sk_init_agent_ok := true; sk_greedy := GMin;
   sk_config_writes := []; sk_task_writes := [];
-  sk_stale := []; sk_entropy := [];
+  sk_stale := ["_previous_error"]; sk_entropy := [];
   sk_reads_fitness := false; sk_reads_direction := false;
   sk_ctor_deref := []; sk_set_config_canonical := true;
   sk_fingerprint := "1642d7438f0cc6d5" |}.
@@ -59,7 +59,7 @@ Definition sk_ArchimedeOptimization : skeleton := {|
   sk_raw_sites := 0; sk_core_writes := 0; sk_objective_calls := 0;
   sk_reflection := 0; sk_init_agent_ok := true; sk_greedy := GMin;
   sk_config_writes := []; sk_task_writes := [];
-  sk_stale := []; sk_entropy := [];
+  sk_stale := ["_previous_error"]; sk_entropy := [];
   sk_reads_fitness := false; sk_reads_direction := false;
   sk_ctor_deref := []; sk_set_config_canonical := true;
   sk_fingerprint := "0c1dcdcd5b10a65e" |}.
@@ -71,7 +71,7 @@ Definition sk_BacterialForagingOptimization : skeleton := {|
   sk_raw_sites := 0; sk_core_writes := 0; sk_objective_calls := 0;
   sk_reflection := 0; sk_init_agent_ok := true; sk_greedy := GMin;
   sk_config_writes := []; sk_task_writes := [];
-  sk_stale := []; sk_entropy := [];
+  sk_stale := ["_previous_error"]; sk_entropy := [];
   sk_reads_fitness := false; sk_reads_direction := false;
   sk_ctor_deref := []; sk_set_config_canonical := true;
   sk_fingerprint := "e8acf96adc0f44a1" |}.
@@ -83,7 +83,7 @@ Definition sk_BatOptimization : skeleton := {|
   sk_raw_sites := 0; sk_core_writes := 0; sk_objective_calls := 0;
   sk_reflection := 0; sk_init_agent_ok := true; sk_greedy := GGuarded;
   sk_config_writes := []; sk_task_writes := [];
-  sk_stale := []; sk_entropy := [];
+  sk_stale := ["_previous_error"]; sk_entropy := [];
   sk_reads_fitness := false; sk_reads_direction := false;
   sk_ctor_deref := []; sk_set_config_canonical := true;
   sk_fingerprint := "8bb50ca08314651a" |}.
@@ -95,7 +95,7 @@ Definition sk_BattleRoyaleOptimization : skeleton := {|
   sk_raw_sites := 0; sk_core_writes := 0; sk_objective_calls := 0;
   sk_reflection := 0; sk_init_agent_ok := true; sk_greedy := GMin;
   sk_config_writes := []; sk_task_writes := [];
-  sk_stale := []; sk_entropy := [];
+  sk_stale := ["_previous_error"]; sk_entropy := [];
   sk_reads_fitness := false; sk_reads_direction := false;
   sk_ctor_deref := []; sk_set_config_canonical := true;
   sk_fingerprint := "a2dff5bc9e0cd2f3" |}.
@@ -107,7 +107,7 @@ Definition sk_BeeColonyOptimization : skeleton := {|
   sk_raw_sites := 0; sk_core_writes := 0; sk_objective_calls := 0;
   sk_reflection := 0; sk_init_agent_ok := true; sk_greedy := GMin;
   sk_config_writes := []; sk_task_writes := [];
-  sk_stale := []; sk_entropy := [];
+  sk_stale := ["_previous_error"]; sk_entropy := [];
   sk_reads_fitness := false; sk_reads_direction := false;
   sk_ctor_deref := []; sk_set_config_canonical := true;
   sk_fingerprint := "8111a7a7f119face" |}.
@@ -119,7 +119,7 @@ Definition sk_BiogeographyBasedOptimization : skeleton := {|
   sk_raw_sites := 0; sk_core_writes := 0; sk_objective_calls := 0;
   sk_reflection := 0; sk_init_agent_ok := true; sk_greedy := GMin;
   sk_config_writes := []; sk_task_writes := [];
-  sk_stale := []; sk_entropy := [];
+  sk_stale := ["_previous_error"]; sk_entropy := [];
   sk_reads_fitness := false; sk_reads_direction := false;
   sk_ctor_deref := []; sk_set_config_canonical := true;
   sk_fingerprint := "9cc0a4738247b217" |}.
@@ -131,7 +131,7 @@ Definition sk_BrainStormOptimization : skeleton := {|
   sk_raw_sites := 0; sk_core_writes := 0; sk_objective_calls := 0;
   sk_reflection := 0; sk_init_agent_ok := true; sk_greedy := GMin;
   sk_config_writes := []; sk_task_writes := [];
-  sk_stale := []; sk_entropy := [];
+  sk_stale := ["_previous_error"]; sk_entropy := [];
   sk_reads_fitness := false; sk_reads_direction := false;
   sk_ctor_deref := []; sk_set_config_canonical := true;
   sk_fingerprint := "5c0de3d9c4ef6509" |}.
@@ -143,7 +143,7 @@ Definition sk_BrownBearOptimization : skeleton := {|
   sk_raw_sites := 0; sk_core_writes := 0; sk_objective_calls := 0;
   sk_reflection := 0; sk_init_agent_ok := true; sk_greedy := GMin;
   sk_config_writes := []; sk_task_writes := [];
-  sk_stale := []; sk_entropy := [];
+  sk_stale := ["_previous_error"]; sk_entropy := [];
   sk_reads_fitness := false; sk_reads_direction := false;
   sk_ctor_deref := []; sk_set_config_canonical := true;
   sk_fingerprint := "b5d45a62c597af8d" |}.
@@ -155,7 +155,7 @@ Definition sk_CamelCaravanOptimization : skeleton := {|
   sk_raw_sites := 0; sk_core_writes := 0; sk_objective_calls := 0;
   sk_reflection := 0; sk_init_agent_ok := true; sk_greedy := GMin;
   sk_config_writes := []; sk_task_writes := [];
-  sk_stale := []; sk_entropy := [];
+  sk_stale := ["_previous_error"]; sk_entropy := [];
   sk_reads_fitness := false; sk_reads_direction := false;
   sk_ctor_deref := []; sk_set_config_canonical := true;
   sk_fingerprint := "5f7a76e585b2e14e" |}.
@@ -167,7 +167,7 @@ Definition sk_CatSwarmOptimization : skeleton := {|
   sk_raw_sites := 0; sk_core_writes := 0; sk_objective_calls := 0;
   sk_reflection := 0; sk_init_agent_ok := true; sk_greedy := GMin;
   sk_config_writes := []; sk_task_writes := [];
-  sk_stale := []; sk_entropy := [];
+  sk_stale := ["_previous_error"]; sk_entropy := [];
   sk_reads_fitness := false; sk_reads_direction := false;
   sk_ctor_deref := []; sk_set_config_canonical := true;
   sk_fingerprint := "d88fec8db5e38324" |}.
@@ -179,7 +179,7 @@ Definition sk_ChaosGameOptimization : skeleton := {|
   sk_raw_sites := 0; sk_core_writes := 0; sk_objective_calls := 0;
   sk_reflection := 0; sk_init_agent_ok := true; sk_greedy := GMin;
   sk_config_writes := []; sk_task_writes := [];
-  sk_stale := []; sk_entropy := [];
+  sk_stale := ["_previous_error"]; sk_entropy := [];
   sk_reads_fitness := false; sk_reads_direction := false;
   sk_ctor_deref := []; sk_set_config_canonical := true;
   sk_fingerprint := "341d08487fdd28ff" |}.
@@ -191,7 +191,7 @@ Definition sk_ChernobylDisasterOptimization : skeleton := {|
   sk_raw_sites := 0; sk_core_writes := 0; sk_objective_calls := 0;
   sk_reflection := 0; sk_init_agent_ok := true; sk_greedy := GMin;
   sk_config_writes := []; sk_task_writes := [];
-  sk_stale := []; sk_entropy := [];
+  sk_stale := ["_previous_error"]; sk_entropy := [];
   sk_reads_fitness := false; sk_reads_direction := false;
   sk_ctor_deref := []; sk_set_config_canonical := true;
   sk_fingerprint := "6834898131a9ed5b" |}.
@@ -203,7 +203,7 @@ Definition sk_CoatiOptimization : skeleton := {|
   sk_raw_sites := 0; sk_core_writes := 0; sk_objective_calls := 0;
   sk_reflection := 0; sk_init_agent_ok := true; sk_greedy := GMin;
   sk_config_writes := []; sk_task_writes := [];
-  sk_stale := []; sk_entropy := [];
+  sk_stale := ["_previous_error"]; sk_entropy := [];
   sk_reads_fitness := false; sk_reads_direction := false;
   sk_ctor_deref := []; sk_set_config_canonical := true;
   sk_fingerprint := "e58748a5979ee9a0" |}.
@@ -215,7 +215,7 @@ Definition sk_CoralReefOptimization : skeleton := {|
   sk_raw_sites := 0; sk_core_writes := 0; sk_objective_calls := 0;
   sk_reflection := 0; sk_init_agent_ok := true; sk_greedy := GMin;
   sk_config_writes := []; sk_task_writes := [];
-  sk_stale := []; sk_entropy := [];
+  sk_stale := ["_previous_error"]; sk_entropy := [];
   sk_reads_fitness := false; sk_reads_direction := false;
   sk_ctor_deref := []; sk_set_config_canonical := true;
   sk_fingerprint := "c0c1a5e9982eec53" |}.
@@ -227,7 +227,7 @@ Definition sk_CoronavirusHerdImmunityOptimization : skeleton := {|
   sk_raw_sites := 0; sk_core_writes := 0; sk_objective_calls := 0;
   sk_reflection := 0; sk_init_agent_ok := true; sk_greedy := GMin;
   sk_config_writes := []; sk_task_writes := [];
-  sk_stale := []; sk_entropy := [];
+  sk_stale := ["_previous_error"]; sk_entropy := [];
   sk_reads_fitness := false; sk_reads_direction := false;
   sk_ctor_deref := []; sk_set_config_canonical := true;
   sk_fingerprint := "00c086949c9a756b" |}.
@@ -239,7 +239,7 @@ Definition sk_CoyotesOptimization : skeleton := {|
   sk_raw_sites := 0; sk_core_writes := 0; sk_objective_calls := 0;
   sk_reflection := 0; sk_init_agent_ok := true; sk_greedy := GMin;
   sk_config_writes := []; sk_task_writes := [];
-  sk_stale := []; sk_entropy := [];
+  sk_stale := ["_previous_error"]; sk_entropy := [];
   sk_reads_fitness := false; sk_reads_direction := false;
   sk_ctor_deref := []; sk_set_config_canonical := true;
   sk_fingerprint := "ec0a9808defa588c" |}.
@@ -251,7 +251,7 @@ Definition sk_CuckooSearchOptimization : skeleton := {|
   sk_raw_sites := 0; sk_core_writes := 0; sk_objective_calls := 0;
   sk_reflection := 0; sk_init_agent_ok := true; sk_greedy := GMin;
   sk_config_writes := []; sk_task_writes := [];
-  sk_stale := []; sk_entropy := [];
+  sk_stale := ["_previous_error"]; sk_entropy := [];
   sk_reads_fitness := false; sk_reads_direction := false;
   sk_ctor_deref := []; sk_set_config_canonical := true;
   sk_fingerprint := "2d154e1b929a629e" |}.
@@ -263,7 +263,7 @@ Definition sk_DragonflyOptimization : skeleton := {|
   sk_raw_sites := 0; sk_core_writes := 0; sk_objective_calls := 0;
   sk_reflection := 0; sk_init_agent_ok := true; sk_greedy := GMin;
   sk_config_writes := []; sk_task_writes := [];
-  sk_stale := []; sk_entropy := [];
+  sk_stale := ["_previous_error"]; sk_entropy := [];
   sk_reads_fitness := false; sk_reads_direction := false;
   sk_ctor_deref := []; sk_set_config_canonical := true;
   sk_fingerprint := "68182ad3928beb4d" |}.
@@ -275,7 +275,7 @@ Definition sk_DwarfMongooseOptimization : skeleton := {|
   sk_raw_sites := 0; sk_core_writes := 0; sk_objective_calls := 0;
   sk_reflection := 0; sk_init_agent_ok := true; sk_greedy := GMin;
   sk_config_writes := []; sk_task_writes := [];
-  sk_stale := []; sk_entropy := [];
+  sk_stale := ["_previous_error"]; sk_entropy := [];
   sk_reads_fitness := false; sk_reads_direction := false;
   sk_ctor_deref := []; sk_set_config_canonical := true;
   sk_fingerprint := "1b4bce6ab2c40fc4" |}.
@@ -287,7 +287,7 @@ Definition sk_EarthwormsOptimization : skeleton := {|
   sk_raw_sites := 0; sk_core_writes := 0; sk_objective_calls := 0;
   sk_reflection := 0; sk_init_agent_ok := true; sk_greedy := GMin;
   sk_config_writes := []; sk_task_writes := [];
-  sk_stale := []; sk_entropy := [];
+  sk_stale := ["_previous_error"]; sk_entropy := [];
   sk_reads_fitness := false; sk_reads_direction := false;
   sk_ctor_deref := []; sk_set_config_canonical := true;
   sk_fingerprint := "6f375c9852397f25" |}.
@@ -299,7 +299,7 @@ Definition sk_EgretSwarmOptimization : skeleton := {|
   sk_raw_sites := 0; sk_core_writes := 0; sk_objective_calls := 0;
   sk_reflection := 0; sk_init_agent_ok := true; sk_greedy := GMin;
   sk_config_writes := []; sk_task_writes := [];
-  sk_stale := []; sk_entropy := [];
+  sk_stale := ["_previous_error"]; sk_entropy := [];
   sk_reads_fitness := false; sk_reads_direction := false;
   sk_ctor_deref := []; sk_set_config_canonical := true;
   sk_fingerprint := "c76892339f19161d" |}.
@@ -311,7 +311,7 @@ Definition sk_ElectromagneticFieldOptimization : skeleton := {|
   sk_raw_sites := 0; sk_core_writes := 0; sk_objective_calls := 0;
   sk_reflection := 0; sk_init_agent_ok := true; sk_greedy := GMin;
   sk_config_writes := []; sk_task_writes := [];
-  sk_stale := []; sk_entropy := [];
+  sk_stale := ["_previous_error"]; sk_entropy := [];
   sk_reads_fitness := false; sk_reads_direction := false;
   sk_ctor_deref := []; sk_set_config_canonical := true;
   sk_fingerprint := "e19678a202f6796f" |}.
@@ -323,7 +323,7 @@ Definition sk_ElephantHerdOptimization : skeleton := {|
   sk_raw_sites := 0; sk_core_writes := 0; sk_objective_calls := 0;
   sk_reflection := 0; sk_init_agent_ok := true; sk_greedy := GMin;
   sk_config_writes := []; sk_task_writes := [];
-  sk_stale := []; sk_entropy := [];
+  sk_stale := ["_previous_error"]; sk_entropy := [];
   sk_reads_fitness := false; sk_reads_direction := false;
   sk_ctor_deref := []; sk_set_config_canonical := true;
   sk_fingerprint := "10943c10f31218c0" |}.
@@ -335,7 +335,7 @@ Definition sk_EnergyValleyOptimization : skeleton := {|
   sk_raw_sites := 0; sk_core_writes := 0; sk_objective_calls := 0;
   sk_reflection := 0; sk_init_agent_ok := true; sk_greedy := GMin;
   sk_config_writes := []; sk_task_writes := [];
-  sk_stale := []; sk_entropy := [];
+  sk_stale := ["_previous_error"]; sk_entropy := [];
   sk_reads_fitness := false; sk_reads_direction := false;
   sk_ctor_deref := []; sk_set_config_canonical := true;
   sk_fingerprint := "4132fcbd35dc2b2c" |}.
@@ -347,7 +347,7 @@ Definition sk_FicksLawOptimization : skeleton := {|
   sk_raw_sites := 0; sk_core_writes := 0; sk_objective_calls := 0;
   sk_reflection := 0; sk_init_agent_ok := true; sk_greedy := GMin;
   sk_config_writes := []; sk_task_writes := [];
-  sk_stale := []; sk_entropy := [];
+  sk_stale := ["_previous_error"]; sk_entropy := [];
   sk_reads_fitness := false; sk_reads_direction := false;
   sk_ctor_deref := []; sk_set_config_canonical := true;
   sk_fingerprint := "eaaf94d589d3299f" |}.
@@ -359,7 +359,7 @@ Definition sk_FireHawkOptimization : skeleton := {|
   sk_raw_sites := 0; sk_core_writes := 0; sk_objective_calls := 0;
   sk_reflection := 0; sk_init_agent_ok := true; sk_greedy := GMin;
   sk_config_writes := []; sk_task_writes := [];
-  sk_stale := []; sk_entropy := [];
+  sk_stale := ["_previous_error"]; sk_entropy := [];
   sk_reads_fitness := false; sk_reads_direction := false;
   sk_ctor_deref := []; sk_set_config_canonical := true;
   sk_fingerprint := "01f0086e8d7296c1" |}.
@@ -371,7 +371,7 @@ Definition sk_FireflySwarmOptimization : skeleton := {|
   sk_raw_sites := 0; sk_core_writes := 0; sk_objective_calls := 0;
   sk_reflection := 0; sk_init_agent_ok := true; sk_greedy := GMin;
   sk_config_writes := []; sk_task_writes := [];
-  sk_stale := []; sk_entropy := [];
+  sk_stale := ["_previous_error"]; sk_entropy := [];
   sk_reads_fitness := false; sk_reads_direction := false;
   sk_ctor_deref := []; sk_set_config_canonical := true;
   sk_fingerprint := "b1471fe66b4ba2d1" |}.
@@ -383,7 +383,7 @@ Definition sk_FireworksOptimization : skeleton := {|
   sk_raw_sites := 0; sk_core_writes := 0; sk_objective_calls := 0;
   sk_reflection := 0; sk_init_agent_ok := true; sk_greedy := GMin;
   sk_config_writes := []; sk_task_writes := [];
-  sk_stale := []; sk_entropy := [];
+  sk_stale := ["_previous_error"]; sk_entropy := [];
   sk_reads_fitness := false; sk_reads_direction := false;
   sk_ctor_deref := []; sk_set_config_canonical := true;
   sk_fingerprint := "9451139bbcf64f4b" |}.
@@ -395,7 +395,7 @@ Definition sk_FishSchoolSearchOptimization : skeleton := {|
   sk_raw_sites := 0; sk_core_writes := 0; sk_objective_calls := 0;
   sk_reflection := 0; sk_init_agent_ok := true; sk_greedy := GMin;
   sk_config_writes := []; sk_task_writes := [];
-  sk_stale := []; sk_entropy := [];
+  sk_stale := ["_previous_error"]; sk_entropy := [];
   sk_reads_fitness := false; sk_reads_direction := false;
   sk_ctor_deref := []; sk_set_config_canonical := true;
   sk_fingerprint := "824841d9d213566b" |}.
@@ -407,7 +407,7 @@ Definition sk_FlowerPollinationAlgorithmOptimization : skeleton := {|
   sk_raw_sites := 0; sk_core_writes := 0; sk_objective_calls := 0;
   sk_reflection := 0; sk_init_agent_ok := true; sk_greedy := GMin;
   sk_config_writes := []; sk_task_writes := [];
-  sk_stale := []; sk_entropy := [];
+  sk_stale := ["_previous_error"]; sk_entropy := [];
   sk_reads_fitness := false; sk_reads_direction := false;
   sk_ctor_deref := []; sk_set_config_canonical := true;
   sk_fingerprint := "25e9440a24caded9" |}.
@@ -419,7 +419,7 @@ Definition sk_ForensicBasedInvestigationOptimization : skeleton := {|
   sk_raw_sites := 0; sk_core_writes := 0; sk_objective_calls := 0;
   sk_reflection := 0; sk_init_agent_ok := true; sk_greedy := GMin;
   sk_config_writes := []; sk_task_writes := [];
-  sk_stale := []; sk_entropy := [];
+  sk_stale := ["_previous_error"]; sk_entropy := [];
   sk_reads_fitness := false; sk_reads_direction := false;
   sk_ctor_deref := []; sk_set_config_canonical := true;
   sk_fingerprint := "4492f974e3147546" |}.
@@ -431,7 +431,7 @@ Definition sk_ForestOptimizationAlgorithm : skeleton := {|
   sk_raw_sites := 0; sk_core_writes := 0; sk_objective_calls := 0;
   sk_reflection := 0; sk_init_agent_ok := true; sk_greedy := GMin;
   sk_config_writes := []; sk_task_writes := [];
-  sk_stale := []; sk_entropy := [];
+  sk_stale := ["_previous_error"]; sk_entropy := [];
   sk_reads_fitness := false; sk_reads_direction := false;
   sk_ctor_deref := []; sk_set_config_canonical := true;
   sk_fingerprint := "7723b9b3c994cbc6" |}.
@@ -443,7 +443,7 @@ Definition sk_FoxOptimization : skeleton := {|
   sk_raw_sites := 0; sk_core_writes := 0; sk_objective_calls := 0;
   sk_reflection := 0; sk_init_agent_ok := true; sk_greedy := GMin;
   sk_config_writes := []; sk_task_writes := [];
-  sk_stale := []; sk_entropy := [];
+  sk_stale := ["_previous_error"]; sk_entropy := [];
   sk_reads_fitness := false; sk_reads_direction := false;
   sk_ctor_deref := []; sk_set_config_canonical := true;
   sk_fingerprint := "d37770356c79693b" |}.
@@ -455,7 +455,7 @@ Definition sk_GainingSharingKnowledgeOptimization : skeleton := {|
   sk_raw_sites := 0; sk_core_writes := 0; sk_objective_calls := 0;
   sk_reflection := 0; sk_init_agent_ok := true; sk_greedy := GMin;
   sk_config_writes := []; sk_task_writes := [];
-  sk_stale := []; sk_entropy := [];
+  sk_stale := ["_previous_error"]; sk_entropy := [];
   sk_reads_fitness := false; sk_reads_direction := false;
   sk_ctor_deref := []; sk_set_config_canonical := true;
   sk_fingerprint := "a06361dcc17099fe" |}.
@@ -467,7 +467,7 @@ Definition sk_GeneticAlgorithmOptimization : skeleton := {|
   sk_raw_sites := 0; sk_core_writes := 0; sk_objective_calls := 0;
   sk_reflection := 0; sk_init_agent_ok := true; sk_greedy := GMin;
   sk_config_writes := []; sk_task_writes := [];
-  sk_stale := []; sk_entropy := [];
+  sk_stale := ["_previous_error"]; sk_entropy := [];
   sk_reads_fitness := false; sk_reads_direction := false;
   sk_ctor_deref := []; sk_set_config_canonical := true;
   sk_fingerprint := "bd4ba847507d172c" |}.
@@ -479,7 +479,7 @@ Definition sk_GerminalCenterOptimization : skeleton := {|
   sk_raw_sites := 0; sk_core_writes := 0; sk_objective_calls := 0;
   sk_reflection := 0; sk_init_agent_ok := true; sk_greedy := GMin;
   sk_config_writes := []; sk_task_writes := [];
-  sk_stale := []; sk_entropy := [];
+  sk_stale := ["_previous_error"]; sk_entropy := [];
   sk_reads_fitness := false; sk_reads_direction := false;
   sk_ctor_deref := []; sk_set_config_canonical := true;
   sk_fingerprint := "e709d2078f1372a3" |}.
@@ -491,7 +491,7 @@ Definition sk_GiantTrevallyOptimization : skeleton := {|
   sk_raw_sites := 0; sk_core_writes := 0; sk_objective_calls := 0;
   sk_reflection := 0; sk_init_agent_ok := true; sk_greedy := GMin;
   sk_config_writes := []; sk_task_writes := [];
-  sk_stale := []; sk_entropy := [];
+  sk_stale := ["_previous_error"]; sk_entropy := [];
   sk_reads_fitness := false; sk_reads_direction := false;
   sk_ctor_deref := []; sk_set_config_canonical := true;
   sk_fingerprint := "316e6177acc246c2" |}.
@@ -503,7 +503,7 @@ Definition sk_GizaPyramidConstructionOptimization : skeleton := {|
   sk_raw_sites := 0; sk_core_writes := 0; sk_objective_calls := 0;
   sk_reflection := 0; sk_init_agent_ok := true; sk_greedy := GMin;
   sk_config_writes := []; sk_task_writes := [];
-  sk_stale := []; sk_entropy := [];
+  sk_stale := ["_previous_error"]; sk_entropy := [];
   sk_reads_fitness := false; sk_reads_direction := false;
   sk_ctor_deref := []; sk_set_config_canonical := true;
   sk_fingerprint := "48680b1b35737ad3" |}.
@@ -515,7 +515,7 @@ Definition sk_GoldenJackalOptimization : skeleton := {|
   sk_raw_sites := 0; sk_core_writes := 0; sk_objective_calls := 0;
   sk_reflection := 0; sk_init_agent_ok := true; sk_greedy := GMin;
   sk_config_writes := []; sk_task_writes := [];
-  sk_stale := []; sk_entropy := [];
+  sk_stale := ["_previous_error"]; sk_entropy := [];
   sk_reads_fitness := false; sk_reads_direction := false;
   sk_ctor_deref := []; sk_set_config_canonical := true;
   sk_fingerprint := "380d154dbef26d93" |}.
@@ -527,7 +527,7 @@ Definition sk_GrasshopperOptimization : skeleton := {|
   sk_raw_sites := 0; sk_core_writes := 0; sk_objective_calls := 0;
   sk_reflection := 0; sk_init_agent_ok := true; sk_greedy := GMin;
   sk_config_writes := []; sk_task_writes := [];
-  sk_stale := []; sk_entropy := [];
+  sk_stale := ["_previous_error"]; sk_entropy := [];
   sk_reads_fitness := false; sk_reads_direction := false;
   sk_ctor_deref := []; sk_set_config_canonical := true;
   sk_fingerprint := "62c14aaa49e7526e" |}.
@@ -539,7 +539,7 @@ Definition sk_GreyWolfOptimization : skeleton := {|
   sk_raw_sites := 0; sk_core_writes := 0; sk_objective_calls := 0;
   sk_reflection := 0; sk_init_agent_ok := true; sk_greedy := GMin;
   sk_config_writes := []; sk_task_writes := [];
-  sk_stale := []; sk_entropy := [];
+  sk_stale := ["_previous_error"]; sk_entropy := [];
   sk_reads_fitness := false; sk_reads_direction := false;
   sk_ctor_deref := []; sk_set_config_canonical := true;
   sk_fingerprint := "0a6c905069bc17ea" |}.
@@ -551,7 +551,7 @@ Definition sk_HarmonySearchOptimization : skeleton := {|
   sk_raw_sites := 0; sk_core_writes := 0; sk_objective_calls := 0;
   sk_reflection := 0; sk_init_agent_ok := true; sk_greedy := GMin;
   sk_config_writes := []; sk_task_writes := [];
-  sk_stale := []; sk_entropy := [];
+  sk_stale := ["_previous_error"]; sk_entropy := [];
   sk_reads_fitness := false; sk_reads_direction := false;
   sk_ctor_deref := []; sk_set_config_canonical := true;
   sk_fingerprint := "3bfe202c8209b76f" |}.
@@ -563,7 +563,7 @@ Definition sk_HeapBasedOptimization : skeleton := {|
   sk_raw_sites := 0; sk_core_writes := 0; sk_objective_calls := 0;
   sk_reflection := 0; sk_init_agent_ok := true; sk_greedy := GMin;
   sk_config_writes := []; sk_task_writes := [];
-  sk_stale := []; sk_entropy := [];
+  sk_stale := ["_previous_error"]; sk_entropy := [];
   sk_reads_fitness := false; sk_reads_direction := false;
   sk_ctor_deref := []; sk_set_config_canonical := true;
   sk_fingerprint := "fb4fd0e23f3ae04e" |}.
@@ -575,7 +575,7 @@ Definition sk_HenryGasSolubilityOptimization : skeleton := {|
   sk_raw_sites := 0; sk_core_writes := 0; sk_objective_calls := 0;
   sk_reflection := 0; sk_init_agent_ok := true; sk_greedy := GMin;
   sk_config_writes := []; sk_task_writes := [];
-  sk_stale := []; sk_entropy := [];
+  sk_stale := ["_previous_error"]; sk_entropy := [];
   sk_reads_fitness := false; sk_reads_direction := false;
   sk_ctor_deref := []; sk_set_config_canonical := true;
   sk_fingerprint := "afee0cbb9fac32de" |}.
@@ -587,7 +587,7 @@ Definition sk_HungerGamesSearchOptimization : skeleton := {|
   sk_raw_sites := 0; sk_core_writes := 0; sk_objective_calls := 0;
   sk_reflection := 0; sk_init_agent_ok := true; sk_greedy := GMin;
   sk_config_writes := []; sk_task_writes := [];
-  sk_stale := []; sk_entropy := [];
+  sk_stale := ["_previous_error"]; sk_entropy := [];
   sk_reads_fitness := false; sk_reads_direction := false;
   sk_ctor_deref := []; sk_set_config_canonical := true;
   sk_fingerprint := "7de0abdd0cb12a3d" |}.
@@ -599,7 +599,7 @@ Definition sk_ImperialistCompetitiveOptimization : skeleton := {|
   sk_raw_sites := 2; sk_core_writes := 0; sk_objective_calls := 0;
   sk_reflection := 0; sk_init_agent_ok := true; sk_greedy := GMin;
   sk_config_writes := []; sk_task_writes := [];
-  sk_stale := []; sk_entropy := [];
+  sk_stale := ["_previous_error"]; sk_entropy := [];
   sk_reads_fitness := false; sk_reads_direction := true;
   sk_ctor_deref := []; sk_set_config_canonical := true;
   sk_fingerprint := "74ab71e3ac543dc6" |}.
@@ -611,7 +611,7 @@ Definition sk_ImprovedBrainStormOptimization : skeleton := {|
   sk_raw_sites := 0; sk_core_writes := 0; sk_objective_calls := 0;
   sk_reflection := 0; sk_init_agent_ok := true; sk_greedy := GMin;
   sk_config_writes := []; sk_task_writes := [];
-  sk_stale := []; sk_entropy := [];
+  sk_stale := ["_previous_error"]; sk_entropy := [];
   sk_reads_fitness := false; sk_reads_direction := false;
   sk_ctor_deref := []; sk_set_config_canonical := true;
   sk_fingerprint := "5c0de3d9c4ef6509" |}.
@@ -623,7 +623,7 @@ Definition sk_InvasiveWeedOptimization : skeleton := {|
   sk_raw_sites := 0; sk_core_writes := 0; sk_objective_calls := 0;
   sk_reflection := 0; sk_init_agent_ok := true; sk_greedy := GMin;
   sk_config_writes := []; sk_task_writes := [];
-  sk_stale := []; sk_entropy := [];
+  sk_stale := ["_previous_error"]; sk_entropy := [];
   sk_reads_fitness := false; sk_reads_direction := false;
   sk_ctor_deref := []; sk_set_config_canonical := true;
   sk_fingerprint := "cc007ec37ddf1b21" |}.
@@ -635,7 +635,7 @@ Definition sk_KrillHerdOptimization : skeleton := {|
   sk_raw_sites := 0; sk_core_writes := 0; sk_objective_calls := 0;
   sk_reflection := 0; sk_init_agent_ok := true; sk_greedy := GMin;
   sk_config_writes := []; sk_task_writes := [];
-  sk_stale := []; sk_entropy := [];
+  sk_stale := ["_previous_error"]; sk_entropy := [];
   sk_reads_fitness := false; sk_reads_direction := false;
   sk_ctor_deref := []; sk_set_config_canonical := true;
   sk_fingerprint := "cb585847833c2a03" |}.
@@ -647,7 +647,7 @@ Definition sk_LeviFlightJayaSwarmOptimization : skeleton := {|
   sk_raw_sites := 0; sk_core_writes := 0; sk_objective_calls := 0;
   sk_reflection := 0; sk_init_agent_ok := true; sk_greedy := GMin;
   sk_config_writes := []; sk_task_writes := [];
-  sk_stale := []; sk_entropy := [];
+  sk_stale := ["_previous_error"]; sk_entropy := [];
   sk_reads_fitness := false; sk_reads_direction := false;
   sk_ctor_deref := []; sk_set_config_canonical := true;
   sk_fingerprint := "768769faa5974dfe" |}.
@@ -659,7 +659,7 @@ Definition sk_MarinePredatorsOptimization : skeleton := {|
   sk_raw_sites := 0; sk_core_writes := 0; sk_objective_calls := 0;
   sk_reflection := 0; sk_init_agent_ok := true; sk_greedy := GMin;
   sk_config_writes := []; sk_task_writes := [];
-  sk_stale := []; sk_entropy := [];
+  sk_stale := ["_previous_error"]; sk_entropy := [];
   sk_reads_fitness := false; sk_reads_direction := false;
   sk_ctor_deref := []; sk_set_config_canonical := true;
   sk_fingerprint := "bdab6f77105ef23f" |}.
@@ -671,7 +671,7 @@ Definition sk_MonarchButterflyOptimization : skeleton := {|
   sk_raw_sites := 0; sk_core_writes := 0; sk_objective_calls := 0;
   sk_reflection := 0; sk_init_agent_ok := true; sk_greedy := GMin;
   sk_config_writes := []; sk_task_writes := [];
-  sk_stale := []; sk_entropy := [];
+  sk_stale := ["_previous_error"]; sk_entropy := [];
   sk_reads_fitness := false; sk_reads_direction := false;
   sk_ctor_deref := []; sk_set_config_canonical := true;
   sk_fingerprint := "a2b06fd284f05fb5" |}.
@@ -683,7 +683,7 @@ Definition sk_MothFlameOptimization : skeleton := {|
   sk_raw_sites := 0; sk_core_writes := 0; sk_objective_calls := 0;
   sk_reflection := 0; sk_init_agent_ok := true; sk_greedy := GMin;
   sk_config_writes := []; sk_task_writes := [];
-  sk_stale := []; sk_entropy := [];
+  sk_stale := ["_previous_error"]; sk_entropy := [];
   sk_reads_fitness := false; sk_reads_direction := false;
   sk_ctor_deref := []; sk_set_config_canonical := true;
   sk_fingerprint := "ce61d642f32c46f4" |}.
@@ -695,7 +695,7 @@ Definition sk_MountainGazelleOptimization : skeleton := {|
   sk_raw_sites := 0; sk_core_writes := 0; sk_objective_calls := 0;
   sk_reflection := 0; sk_init_agent_ok := true; sk_greedy := GMin;
   sk_config_writes := []; sk_task_writes := [];
-  sk_stale := []; sk_entropy := [];
+  sk_stale := ["_previous_error"]; sk_entropy := [];
   sk_reads_fitness := false; sk_reads_direction := false;
   sk_ctor_deref := []; sk_set_config_canonical := true;
   sk_fingerprint := "6f8a28ef5d8dd12f" |}.
@@ -707,7 +707,7 @@ Definition sk_MultiverseOptimization : skeleton := {|
   sk_raw_sites := 0; sk_core_writes := 0; sk_objective_calls := 0;
   sk_reflection := 0; sk_init_agent_ok := true; sk_greedy := GMin;
   sk_config_writes := []; sk_task_writes := [];
-  sk_stale := []; sk_entropy := [];
+  sk_stale := ["_previous_error"]; sk_entropy := [];
   sk_reads_fitness := false; sk_reads_direction := false;
   sk_ctor_deref := []; sk_set_config_canonical := true;
   sk_fingerprint := "8aec1ac6b9257203" |}.
@@ -719,7 +719,7 @@ Definition sk_NuclearReactionOptimization : skeleton := {|
   sk_raw_sites := 0; sk_core_writes := 0; sk_objective_calls := 0;
   sk_reflection := 0; sk_init_agent_ok := true; sk_greedy := GMin;
   sk_config_writes := []; sk_task_writes := [];
-  sk_stale := []; sk_entropy := [];
+  sk_stale := ["_previous_error"]; sk_entropy := [];
   sk_reads_fitness := false; sk_reads_direction := false;
   sk_ctor_deref := []; sk_set_config_canonical := true;
   sk_fingerprint := "8789710ef1c185db" |}.
@@ -731,7 +731,7 @@ Definition sk_OspreyOptimization : skeleton := {|
   sk_raw_sites := 0; sk_core_writes := 0; sk_objective_calls := 0;
   sk_reflection := 0; sk_init_agent_ok := true; sk_greedy := GMin;
   sk_config_writes := []; sk_task_writes := [];
-  sk_stale := []; sk_entropy := [];
+  sk_stale := ["_previous_error"]; sk_entropy := [];
   sk_reads_fitness := false; sk_reads_direction := false;
   sk_ctor_deref := []; sk_set_config_canonical := true;
   sk_fingerprint := "62dfa7a82933b122" |}.
@@ -743,7 +743,7 @@ Definition sk_ParticleSwarmOptimization : skeleton := {|
   sk_raw_sites := 0; sk_core_writes := 0; sk_objective_calls := 0;
   sk_reflection := 0; sk_init_agent_ok := true; sk_greedy := GMin;
   sk_config_writes := []; sk_task_writes := [];
-  sk_stale := []; sk_entropy := [];
+  sk_stale := ["_previous_error"]; sk_entropy := [];
   sk_reads_fitness := false; sk_reads_direction := false;
   sk_ctor_deref := []; sk_set_config_canonical := true;
   sk_fingerprint := "a5d9c8c9a808087e" |}.
@@ -755,7 +755,7 @@ Definition sk_PathfinderAlgorithmOptimization : skeleton := {|
   sk_raw_sites := 0; sk_core_writes := 0; sk_objective_calls := 0;
   sk_reflection := 0; sk_init_agent_ok := true; sk_greedy := GMin;
   sk_config_writes := []; sk_task_writes := [];
-  sk_stale := []; sk_entropy := [];
+  sk_stale := ["_previous_error"]; sk_entropy := [];
   sk_reads_fitness := false; sk_reads_direction := false;
   sk_ctor_deref := []; sk_set_config_canonical := true;
   sk_fingerprint := "4bade32f41629c7d" |}.
@@ -767,7 +767,7 @@ Definition sk_PelicanOptimization : skeleton := {|
   sk_raw_sites := 0; sk_core_writes := 0; sk_objective_calls := 0;
   sk_reflection := 0; sk_init_agent_ok := true; sk_greedy := GMin;
   sk_config_writes := []; sk_task_writes := [];
-  sk_stale := []; sk_entropy := [];
+  sk_stale := ["_previous_error"]; sk_entropy := [];
   sk_reads_fitness := false; sk_reads_direction := false;
   sk_ctor_deref := []; sk_set_config_canonical := true;
   sk_fingerprint := "fe8a7a5d969f67ff" |}.
@@ -779,7 +779,7 @@ Definition sk_QleSineCosineAlgorithmOptimization : skeleton := {|
   sk_raw_sites := 0; sk_core_writes := 0; sk_objective_calls := 0;
   sk_reflection := 0; sk_init_agent_ok := true; sk_greedy := GMin;
   sk_config_writes := []; sk_task_writes := [];
-  sk_stale := []; sk_entropy := [];
+  sk_stale := ["_previous_error"]; sk_entropy := [];
   sk_reads_fitness := false; sk_reads_direction := false;
   sk_ctor_deref := []; sk_set_config_canonical := true;
   sk_fingerprint := "632ede4a629cf4c9" |}.
@@ -791,7 +791,7 @@ Definition sk_RungeKuttaOptimization : skeleton := {|
   sk_raw_sites := 0; sk_core_writes := 0; sk_objective_calls := 0;
   sk_reflection := 0; sk_init_agent_ok := true; sk_greedy := GMin;
   sk_config_writes := []; sk_task_writes := [];
-  sk_stale := []; sk_entropy := [];
+  sk_stale := ["_previous_error"]; sk_entropy := [];
   sk_reads_fitness := false; sk_reads_direction := false;
   sk_ctor_deref := []; sk_set_config_canonical := true;
   sk_fingerprint := "34b8478ceaaf3621" |}.
@@ -803,7 +803,7 @@ Definition sk_SalpSwarmOptimization : skeleton := {|
   sk_raw_sites := 0; sk_core_writes := 0; sk_objective_calls := 0;
   sk_reflection := 0; sk_init_agent_ok := true; sk_greedy := GMin;
   sk_config_writes := []; sk_task_writes := [];
-  sk_stale := []; sk_entropy := [];
+  sk_stale := ["_previous_error"]; sk_entropy := [];
   sk_reads_fitness := false; sk_reads_direction := false;
   sk_ctor_deref := []; sk_set_config_canonical := true;
   sk_fingerprint := "508729b2aa3b8cfc" |}.
@@ -815,7 +815,7 @@ Definition sk_SeagullOptimization : skeleton := {|
   sk_raw_sites := 0; sk_core_writes := 0; sk_objective_calls := 0;
   sk_reflection := 0; sk_init_agent_ok := true; sk_greedy := GMin;
   sk_config_writes := []; sk_task_writes := [];
-  sk_stale := []; sk_entropy := [];
+  sk_stale := ["_previous_error"]; sk_entropy := [];
   sk_reads_fitness := false; sk_reads_direction := false;
   sk_ctor_deref := []; sk_set_config_canonical := true;
   sk_fingerprint := "38c51cb009fe8cd5" |}.
@@ -827,7 +827,7 @@ Definition sk_ServalOptimization : skeleton := {|
   sk_raw_sites := 0; sk_core_writes := 0; sk_objective_calls := 0;
   sk_reflection := 0; sk_init_agent_ok := true; sk_greedy := GMin;
   sk_config_writes := []; sk_task_writes := [];
-  sk_stale := []; sk_entropy := [];
+  sk_stale := ["_previous_error"]; sk_entropy := [];
   sk_reads_fitness := false; sk_reads_direction := false;
   sk_ctor_deref := []; sk_set_config_canonical := true;
   sk_fingerprint := "25e584ca600cc39a" |}.
@@ -839,7 +839,7 @@ Definition sk_SiberianTigerOptimization : skeleton := {|
   sk_raw_sites := 0; sk_core_writes := 0; sk_objective_calls := 0;
   sk_reflection := 0; sk_init_agent_ok := true; sk_greedy := GMin;
   sk_config_writes := []; sk_task_writes := [];
-  sk_stale := []; sk_entropy := [];
+  sk_stale := ["_previous_error"]; sk_entropy := [];
   sk_reads_fitness := false; sk_reads_direction := false;
   sk_ctor_deref := []; sk_set_config_canonical := true;
   sk_fingerprint := "bfc8d9874668e6e9" |}.
@@ -851,7 +851,7 @@ Definition sk_SineCosineAlgorithmOptimization : skeleton := {|
   sk_raw_sites := 0; sk_core_writes := 0; sk_objective_calls := 0;
   sk_reflection := 0; sk_init_agent_ok := true; sk_greedy := GMin;
   sk_config_writes := []; sk_task_writes := [];
-  sk_stale := []; sk_entropy := [];
+  sk_stale := ["_previous_error"]; sk_entropy := [];
   sk_reads_fitness := false; sk_reads_direction := false;
   sk_ctor_deref := []; sk_set_config_canonical := true;
   sk_fingerprint := "e0b93394e8029996" |}.
@@ -863,7 +863,7 @@ Definition sk_SpottedHyenaOptimization : skeleton := {|
   sk_raw_sites := 0; sk_core_writes := 0; sk_objective_calls := 0;
   sk_reflection := 0; sk_init_agent_ok := true; sk_greedy := GMin;
   sk_config_writes := []; sk_task_writes := [];
-  sk_stale := []; sk_entropy := [];
+  sk_stale := ["_previous_error"]; sk_entropy := [];
   sk_reads_fitness := false; sk_reads_direction := false;
   sk_ctor_deref := []; sk_set_config_canonical := true;
   sk_fingerprint := "dc487aee38b9921e" |}.
@@ -875,7 +875,7 @@ Definition sk_SuccessHistoryIntelligentOptimization : skeleton := {|
   sk_raw_sites := 0; sk_core_writes := 0; sk_objective_calls := 0;
   sk_reflection := 0; sk_init_agent_ok := true; sk_greedy := GMin;
   sk_config_writes := []; sk_task_writes := [];
-  sk_stale := []; sk_entropy := [];
+  sk_stale := ["_previous_error"]; sk_entropy := [];
   sk_reads_fitness := false; sk_reads_direction := false;
   sk_ctor_deref := []; sk_set_config_canonical := true;
   sk_fingerprint := "da862e07e73f595f" |}.
@@ -887,7 +887,7 @@ Definition sk_SwarmHillClimbingOptimization : skeleton := {|
   sk_raw_sites := 0; sk_core_writes := 0; sk_objective_calls := 0;
   sk_reflection := 0; sk_init_agent_ok := true; sk_greedy := GMin;
   sk_config_writes := []; sk_task_writes := [];
-  sk_stale := []; sk_entropy := [];
+  sk_stale := ["_previous_error"]; sk_entropy := [];
   sk_reads_fitness := false; sk_reads_direction := false;
   sk_ctor_deref := []; sk_set_config_canonical := true;
   sk_fingerprint := "5f92b04c6f873753" |}.
@@ -899,7 +899,7 @@ Definition sk_TasmanianDevilOptimization : skeleton := {|
   sk_raw_sites := 0; sk_core_writes := 0; sk_objective_calls := 0;
   sk_reflection := 0; sk_init_agent_ok := true; sk_greedy := GMin;
   sk_config_writes := []; sk_task_writes := [];
-  sk_stale := []; sk_entropy := [];
+  sk_stale := ["_previous_error"]; sk_entropy := [];
   sk_reads_fitness := false; sk_reads_direction := false;
   sk_ctor_deref := []; sk_set_config_canonical := true;
   sk_fingerprint := "ff3b9c25fcb5d8f2" |}.
@@ -911,7 +911,7 @@ Definition sk_TunaSwarmOptimization : skeleton := {|
   sk_raw_sites := 0; sk_core_writes := 0; sk_objective_calls := 0;
   sk_reflection := 0; sk_init_agent_ok := true; sk_greedy := GMin;
   sk_config_writes := []; sk_task_writes := [];
-  sk_stale := []; sk_entropy := [];
+  sk_stale := ["_previous_error"]; sk_entropy := [];
   sk_reads_fitness := false; sk_reads_direction := false;
   sk_ctor_deref := []; sk_set_config_canonical := true;
   sk_fingerprint := "bd706b46028312a5" |}.
@@ -923,7 +923,7 @@ Definition sk_VirusColonySearchOptimization : skeleton := {|
   sk_raw_sites := 0; sk_core_writes := 0; sk_objective_calls := 0;
   sk_reflection := 0; sk_init_agent_ok := true; sk_greedy := GMin;
   sk_config_writes := []; sk_task_writes := [];
-  sk_stale := []; sk_entropy := [];
+  sk_stale := ["_previous_error"]; sk_entropy := [];
   sk_reads_fitness := false; sk_reads_direction := false;
   sk_ctor_deref := []; sk_set_config_canonical := true;
   sk_fingerprint := "4788b61ebbd52e99" |}.
@@ -935,7 +935,7 @@ Definition sk_WalrusOptimization : skeleton := {|
   sk_raw_sites := 0; sk_core_writes := 0; sk_objective_calls := 0;
   sk_reflection := 0; sk_init_agent_ok := true; sk_greedy := GMin;
   sk_config_writes := []; sk_task_writes := [];
-  sk_stale := []; sk_entropy := [];
+  sk_stale := ["_previous_error"]; sk_entropy := [];
   sk_reads_fitness := false; sk_reads_direction := false;
   sk_ctor_deref := []; sk_set_config_canonical := true;
   sk_fingerprint := "fd34d38ca1de35c9" |}.
@@ -947,7 +947,7 @@ Definition sk_WarStrategyOptimization : skeleton := {|
   sk_raw_sites := 0; sk_core_writes := 0; sk_objective_calls := 0;
   sk_reflection := 0; sk_init_agent_ok := true; sk_greedy := GMin;
   sk_config_writes := []; sk_task_writes := [];
-  sk_stale := []; sk_entropy := [];
+  sk_stale := ["_previous_error"]; sk_entropy := [];
   sk_reads_fitness := false; sk_reads_direction := false;
   sk_ctor_deref := []; sk_set_config_canonical := true;
   sk_fingerprint := "9248f1a79e7df432" |}.
@@ -959,7 +959,7 @@ Definition sk_WaterCycleOptimization : skeleton := {|
   sk_raw_sites := 0; sk_core_writes := 0; sk_objective_calls := 0;
   sk_reflection := 0; sk_init_agent_ok := true; sk_greedy := GMin;
   sk_config_writes := []; sk_task_writes := [];
-  sk_stale := []; sk_entropy := [];
+  sk_stale := ["_previous_error"]; sk_entropy := [];
   sk_reads_fitness := false; sk_reads_direction := false;
   sk_ctor_deref := []; sk_set_config_canonical := true;
   sk_fingerprint := "11d5175de3884bae" |}.
@@ -971,7 +971,7 @@ Definition sk_WhalesOptimization : skeleton := {|
   sk_raw_sites := 0; sk_core_writes := 0; sk_objective_calls := 0;
   sk_reflection := 0; sk_init_agent_ok := true; sk_greedy := GMin;
   sk_config_writes := []; sk_task_writes := [];
-  sk_stale := []; sk_entropy := [];
+  sk_stale := ["_previous_error"]; sk_entropy := [];
   sk_reads_fitness := false; sk_reads_direction := false;
   sk_ctor_deref := []; sk_set_config_canonical := true;
   sk_fingerprint := "d9bdb9582cacaa01" |}.
@@ -983,7 +983,7 @@ Definition sk_WildebeestHerdOptimization : skeleton := {|
   sk_raw_sites := 0; sk_core_writes := 0; sk_objective_calls := 0;
   sk_reflection := 0; sk_init_agent_ok := true; sk_greedy := GMin;
   sk_config_writes := []; sk_task_writes := [];
-  sk_stale := []; sk_entropy := [];
+  sk_stale := ["_previous_error"]; sk_entropy := [];
   sk_reads_fitness := false; sk_reads_direction := false;
   sk_ctor_deref := []; sk_set_config_canonical := true;
   sk_fingerprint := "a82a777f0ceca34a" |}.
@@ -995,7 +995,7 @@ Definition sk_WindDrivenOptimization : skeleton := {|
   sk_raw_sites := 0; sk_core_writes := 0; sk_objective_calls := 0;
   sk_reflection := 0; sk_init_agent_ok := true; sk_greedy := GMin;
   sk_config_writes := []; sk_task_writes := [];
-  sk_stale := []; sk_entropy := [];
+  sk_stale := ["_previous_error"]; sk_entropy := [];
   sk_reads_fitness := false; sk_reads_direction := false;
   sk_ctor_deref := []; sk_set_config_canonical := true;
   sk_fingerprint := "4f61e198de5d6eec" |}.
@@ -1007,7 +1007,7 @@ Definition sk_ZebraOptimization : skeleton := {|
   sk_raw_sites := 0; sk_core_writes := 0; sk_objective_calls := 0;
   sk_reflection := 0; sk_init_agent_ok := true; sk_greedy := GMin;
   sk_config_writes := []; sk_task_writes := [];
-  sk_stale := []; sk_entropy := [];
+  sk_stale := ["_previous_error"]; sk_entropy := [];
   sk_reads_fitness := false; sk_reads_direction := false;
   sk_ctor_deref := []; sk_set_config_canonical := true;
   sk_fingerprint := "34a6624ff65a88bb" |}.
